@@ -198,11 +198,13 @@ def rand_args(rng, multi=None):
     label = None
     if rng.random() < 0.6:
         if multi is None:
-            label = rng.choice(["x", "my protein", "a-syn", "P1 (wt)"])
+            label = rng.choice(["x", "my protein", "a-syn", "P1 (wt)", "\u03b1-synuclein \u0394NAC", "A\u03b242", "prot\u00e9ine"])
         else:
             label = ["s%d" % i for i in range(multi)]
+            if rng.random() < 0.3:
+                label[0] = rng.choice(["\u03b1-syn", "A\u03b242", "prot\u00e9ine \u2116 1"])
     if rng.random() < 0.5:
-        kw["title"] = rng.choice(["T", "My title", "Diagram", ""])
+        kw["title"] = rng.choice(["T", "My title", "Diagram", "", "\u03b1-synuclein vs. A\u03b2", "Diagramme d'\u00e9tats"])
     if rng.random() < 0.4:
         kw["legendOn"] = rng.choice([True, False])
     if rng.random() < 0.5:
